@@ -121,7 +121,7 @@ func c08Deviations(it *corpus.Item, two bool, fn func(src, why string)) {
 func c08Run(c *core.Ctx) {
 	level := 2
 	if c.Thorough() {
-		level = 5
+		level = 6
 	}
 	for _, fam := range []string{"php7", "php5"} {
 		f := corpus.MustFam(fam)
